@@ -255,6 +255,13 @@ class BayesianOptimizationOracle(oracle_module.Oracle):
                 # "Hallucinate" the results of ongoing trials. This ensures that
                 # repeat trials are not selected when running distributed.
                 x_h = np.array(vector).reshape((1, -1))
+                # The model may have been fitted before the latest
+                # hyperparameters were discovered: it cannot estimate this
+                # trial until it is fitted on the grown space.
+                if getattr(self.gpr, "n_features_in_", x_h.shape[1]) != (
+                    x_h.shape[1]
+                ):
+                    continue
                 y_h_mean, y_h_std = self.gpr.predict(x_h, return_std=True)
                 # Give a pessimistic estimate of the ongoing trial.
                 y_h_mean = np.array(y_h_mean).flatten()
